@@ -62,7 +62,7 @@ func TestC17(t *testing.T) {
 		}
 		if p.E2E {
 			// a real serving plugin; what matters is that the configured mode works
-			cf := writeCfg(d, map[string]any{"versioned": map[string]string{"1": p.E2EProto, "2": p.E2EProto, "3": p.E2EProto, "0": p.E2EProto}})
+			cf := writeCfg(d, map[string]any{"versioned": map[string]string{"1": p.E2EProto, "2": p.E2EProto, "3": p.E2EProto, "0": p.E2EProto, "8": p.E2EProto, "10": p.E2EProto}})
 			cfg.Cmd = exec.Command(pluginBin, cf)
 			cfg.Cmd.Env = append([]string{"TMPDIR=" + d}, p.UserEnv...)
 			for v, ps := range cfg.VersionedPlugins {
